@@ -78,7 +78,9 @@ categories = Flags.all().to_set()
 
 
 def xdist_running(config):
-    return (
+    # xdist sets numprocesses to None in its worker processes,
+    # they can only be detected with the workerinput attribute
+    return hasattr(config, "workerinput") or (
         hasattr(config.option, "numprocesses")
         and config.option.numprocesses is not None
         and config.option.numprocesses != 0
